@@ -13,6 +13,7 @@ pub mod c15;
 pub mod c16;
 pub mod c18;
 pub mod c19;
+pub mod c20;
 pub mod simutil;
 
 use crate::common::*;
@@ -35,6 +36,7 @@ pub fn run_property(ctx: &mut Ctx) -> bool {
         "C16" => c16::run(ctx),
         "C18" => c18::run(ctx),
         "C19" => c19::run(ctx),
+        "C20" => c20::run(ctx),
         _ => return false,
     }
     true
@@ -84,6 +86,7 @@ pub fn replay(body: &Value) -> i32 {
         "naks" => replay_part(&c08::C08Part, body),
         "sender" => replay_part(&c07::C07Part, body),
         "suspend" => replay_part(&c19::C19Part, body),
+        "progress" => replay_part(&c20::C20Part, body),
         "roundtrip" => replay_part(&c05::RtPart, body),
         "checksum" => replay_part(&c14::CkPart, body),
         "confinement" => replay_part(&c12::FsPart, body),
